@@ -57,7 +57,7 @@ var propVariants = map[string][]variant{
 	"C08": {vStd, vRaceT},
 	"C03": {vStd, vAsan},
 	"C01": {vStd, vAsan},
-	"C05": {vStd, vPurego},
+	"C05": {vStd, vPurego, vNoAVX},
 	"C10": {vStd, vPurego},
 }
 
